@@ -12,6 +12,7 @@ DECIDED = ("R1 make_move decodes the ABI move with From<StableChessMove> (lossle
            "R2 ThreeFold::add inserts at 0, adds 1 and answers `== 3`; the table is keyed by Board (identity: C04.R4/R5); R3 set_board stores the given board and a fresh table; board() returns the "
            "stored board; evaluate searches the stored board with the stored table and encodes the result with EvaluatedMove::new; R4 the constructor starts from Board::standard() and an empty table.")
 DECIDED = DECIDED + ' R2 also: ThreeFold::add (entry/or_insert form or get/insert form) performs no forgetting operation on the table (clear, remove, retain, ...), and nothing else in the workspace borrows the table mutably; R6 premise re-run here: Board::move_mut applies a move only if it is in the full generated legal list (C02.R6). R7 premise re-run here: position identity (Eq and Hash of Board) is exactly placement, side to move, castling rights and en-passant file (C04.R3, R4).'
+DECIDED = DECIDED + ' R90 premises re-run here: C04 C04.R2; C02 C02.R9; C03 C03.R4, C03.R6.'
 NOT_DECIDED = ("that the reported board equals the reference successor (C02's behaviour) and that the proposed move is legal (C11.R1); whether the position installed by set_board "
                "itself counts as a first occurrence is ambiguous in the property ('since the board was last set') and is not demanded")
 EXPLANATION = "K4 effect tables of the four trait methods with the movegen/engine entry points opaque and their calls recorded in order."
@@ -256,6 +257,16 @@ def r_premise(ctx):
     premise(ctx, "C02", {'C02.R6'}, "the plugin's legality gate is Board::move_mut; its legality test is no longer membership in the full legal move list")
 
 
+
+
+@rule("C15.R90", 'premises shared with other properties: C04 (C04.R2); C02 (C02.R9); C03 (C03.R4, C03.R6)')
+def r_premises_shared(ctx):
+    """This property's argument rests on these rules of other properties (what it calls is assumed to behave); they are re-run here so that a
+    breakage of one of them is reported by this property's own check as well."""
+    from analysis.runner import premise
+    premise(ctx, 'C04', ['C04.R2'] and set(['C04.R2']), 'threefold detection keys positions by their hash; a mutation is no longer paired with its key')
+    premise(ctx, 'C02', ['C02.R9'] and set(['C02.R9']), "the plugin's legality gate compares the submitted move with the generated ones; that equality is no longer field-by-field")
+    premise(ctx, 'C03', ['C03.R4', 'C03.R6'] and set(['C03.R4', 'C03.R6']), 'boards handed to set_board get their check information from scratch; that computation is no longer exact')
 
 
 CONTROLS = [
